@@ -265,6 +265,28 @@ ALLOWED_AXIOMS = {
 }
 
 
+def coqchk(ctx):
+    """thorough tier: re-check the compiled cone of the property with the independent checker and list its axioms."""
+    with Lock("coq"):
+        rc, out = sh(["timeout", "3000", "coqchk", "-silent", "-o", "-Q", "theories", "GF", "-Q", "gen", "GFgen",
+                      "GF.Properties_%s" % ctx.pid], cwd=COQ, timeout=3100)
+    m = re.search(r"\* Axioms:(.*?)\* Constants/Inductives relying on type-in-type:(.*?)\* Constants/Inductives relying on unsafe \(co\)fixpoints:(.*?)\* Inductives whose positivity is assumed:(.*)", out, re.S)
+    res = {"coqchk_exit": rc}
+    if m:
+        clean = lambda x: " ".join(x.split())
+        res.update({"coqchk_axioms": clean(m.group(1)), "coqchk_type_in_type": clean(m.group(2)),
+                    "coqchk_unsafe_fixpoints": clean(m.group(3)), "coqchk_assumed_positivity": clean(m.group(4))})
+    bad = rc != 0 or not m or any(res[k] != "<none>" for k in ("coqchk_type_in_type", "coqchk_unsafe_fixpoints", "coqchk_assumed_positivity"))
+    if m and res["coqchk_axioms"] != "<none>":
+        names = re.findall(r"([A-Za-z_][\w.']*)\s*:", res["coqchk_axioms"])
+        if any(n.split(".")[-1] not in {x.split(".")[-1] for x in ALLOWED_AXIOMS} for n in names):
+            bad = True
+    if bad:
+        violation(ctx, "coqchk", {"what": "coqchk does not accept the compiled cone of Properties_%s.v" % ctx.pid, "output": out[-3000:]},
+                  no_failing_input=True)
+    return res
+
+
 def forbidden_scan():
     bad = []
     for root in (os.path.join(COQ, "theories"), os.path.join(COQ, "gen")):
@@ -394,6 +416,9 @@ def write_evidence(ctx, obl, coverage, assumptions):
         "theorems": obl["theorems"],
     }
     cov.update(coverage)
+    if ctx.tier == "thorough" and obl.get("ok"):
+        cov.update(coqchk(ctx))
+        cov["checker_cmd"] += " ; coqchk -silent -o -Q theories GF -Q gen GFgen GF.Properties_%s" % ctx.pid
     ev = {"property_id": ctx.pid, "tier": ctx.tier, "seed": ctx.seed, "level": "proof", "coverage": cov,
           "assumptions": assumptions, "wall_s": round(time.time() - ctx.t0, 2),
           "violations": len(ctx.violations)}
